@@ -18,6 +18,37 @@ import (
 
 var errInjected = errors.New("verif: injected fault")
 
+// The injected failure comes in four shapes, chosen by the position of the fault (so that the case
+// format does not change): a plain error; one that wraps io.EOF; one that wraps io.ErrUnexpectedEOF
+// (a source's own error is not an end of stream, however it is dressed: only the identical io.EOF
+// value is); one whose type has Timeout/Temporary methods (a failure is a failure).  All of them
+// satisfy errors.Is(err, errInjected).
+type timeoutFault struct{}
+
+func (timeoutFault) Error() string        { return "verif: injected fault (deadline exceeded)" }
+func (timeoutFault) Timeout() bool        { return true }
+func (timeoutFault) Temporary() bool      { return true }
+func (timeoutFault) Is(target error) bool { return target == errInjected }
+
+var faultShapes = []error{
+	errInjected,
+	fmt.Errorf("%w (wraps %w)", errInjected, io.EOF),
+	fmt.Errorf("%w (wraps %w)", errInjected, io.ErrUnexpectedEOF),
+	timeoutFault{},
+}
+
+// injectedFault(k, wrapEOF): the shape for a fault at call k; the EOF-wrapping shapes only where asked for
+func injectedFault(k int, once bool, wrapEOF bool) error {
+	i := k % 4
+	if once {
+		i = (k + 2) % 4
+	}
+	if !wrapEOF && (i == 1 || i == 2) {
+		i = 3
+	}
+	return faultShapes[i]
+}
+
 func errClass(err error) string {
 	switch {
 	case err == nil:
@@ -70,7 +101,7 @@ func (s *sink) Write(p []byte) (int, error) {
 	s.calls++
 	if s.failAt > 0 && (s.calls == s.failAt || (!s.once && s.calls > s.failAt)) {
 		s.failed = true
-		return 0, errInjected
+		return 0, injectedFault(s.failAt, s.once, false)
 	}
 	if s.buf.Len()+len(p) > 48<<20 {
 		return 0, errors.New("verif: sink overflow")
@@ -92,12 +123,13 @@ type source struct {
 	failAt   int
 	once     bool // the fault fires at that call only (a transient failure)
 	consumed int
+	wrapEOF  bool // the injected failure may wrap io.EOF / io.ErrUnexpectedEOF
 }
 
 func (s *source) Read(p []byte) (int, error) {
 	s.calls++
 	if s.failAt > 0 && (s.calls == s.failAt || (!s.once && s.calls > s.failAt)) {
-		return 0, errInjected
+		return 0, injectedFault(s.failAt, s.once, s.wrapEOF)
 	}
 	if len(p) == 0 {
 		return 0, nil
@@ -546,7 +578,7 @@ func runRS(c *rsCase) string {
 		g0 := runtime.NumGoroutine()
 		var ms0 runtime.MemStats
 		runtime.ReadMemStats(&ms0)
-		src := &source{data: c.in, frag: c.frag, failAt: c.fault, r: newRng(uint64(len(c.in)), "rs")}
+		src := &source{data: c.in, frag: c.frag, failAt: c.fault, wrapEOF: true, r: newRng(uint64(len(c.in)), "rs")}
 		zr := lz4.NewReader(src)
 		var res []string
 		var delivered []byte
@@ -703,7 +735,7 @@ func (c *crCase) fields() string {
 func runCR(c *crCase) string {
 	return withWatchdog(20*time.Second, func() string {
 		d := parseData(c.data)
-		src := &source{data: d, frag: c.frag, failAt: c.fault, once: c.once, r: newRng(uint64(len(d)), "cr")}
+		src := &source{data: d, frag: c.frag, failAt: c.fault, once: c.once, wrapEOF: true, r: newRng(uint64(len(d)), "cr")}
 		zr := lz4.NewCompressingReader(nopCloser{src})
 		ao := "nil"
 		if c.opts != "-" && c.opts != "" {
